@@ -217,8 +217,8 @@ def intCell : Value → Res Int32
   | .int n => .ok n
   | _ => .err .invalidData
 
-/-- `Package::open` on a container whose root CLSID says `ptype` (`none` = unrecognised) -/
-def open_ (ptype : Option Nat) (cont : List Entry) : Res Pkg := do
+/-- the parsing work of `Package::open`: (package type, summary, pool, tables) -/
+def openCore (ptype : Option Nat) (cont : List Entry) : Res (Nat × PropSet × Pool × List Table) := do
   let pt ← match ptype with
     | some p => pure p
     | none => .err .invalidData
@@ -327,7 +327,15 @@ def open_ (ptype : Option Nat) (cont : List Entry) : Res Pkg := do
       build rest (insertTable acc ⟨tn, cols, long⟩)
   let userTables ← build tableNames []
   let all := insertTable (insertTable userTables tt) ct
-  pure { s0 with tables := all }
+  pure (pt, summary, pool, all)
+
+/-- `Package::open` on a container whose root CLSID says `ptype` (`none` = unrecognised):
+the opened package holds the container as it is, nothing pending, no finisher -/
+def open_ (ptype : Option Nat) (cont : List Entry) : Res Pkg :=
+  match openCore ptype cont with
+  | .ok (pt, summary, pool, tables) => .ok ⟨pt, cont, summary, false, pool, tables, false⟩
+  | .err k => .err k
+  | .panic w => .panic w
 
 end Pkg
 end MsiModel
